@@ -15,7 +15,27 @@ import re
 import subprocess
 import time
 
-from . import py2lean
+from . import py2lean, py2lean_sm
+
+# the translators: expression-level (py2lean) and imperative / stateful (py2lean_sm). Each has its own generated file,
+# namespace, theorem directory, prelude and driver module; everything below is done once per translator.
+GENS = [
+    dict(key="", mod=py2lean, gen="GeneratedSrc.lean", ns="Src", srcdir="Source", preludes=["PyPrelude.lean"],
+         drive="Src"),
+    dict(key="SM:", mod=py2lean_sm, gen="GeneratedSrcSM.lean", ns="SrcSM", srcdir="SourceSM",
+         preludes=["PyPrelude.lean", "PyPreludeSM.lean"], drive="SrcSM"),
+]
+ALL_TARGETS = py2lean.TARGETS + py2lean_sm.TARGETS
+
+
+def gen_of(t):
+    return GENS[1] if any(t is x for x in py2lean_sm.TARGETS) else GENS[0]
+
+
+def label_of(t):
+    """key of a function in `coverage.source_tie` (several specialisations of one Python function carry a label)"""
+    return t.get("label", t["func"])
+
 
 ALLOWED_AXIOMS = {"propext", "Classical.choice", "Quot.sound"}
 _BAD = re.compile(r"\b(sorry|admit|native_decide|bv_decide|implemented_by|unsafe)\b|^\s*axiom\s|maxHeartbeats\s+0", re.M)
@@ -59,14 +79,20 @@ def _save_cache(lean_dir, c):
     os.replace(tmp, _cache_path(lean_dir))
 
 
+def _target(name):
+    return next((t for t in ALL_TARGETS if t["lean"] == name), None)
+
+
 def theorem_of(name):
-    return f"Src.{name}_eq_model"
+    t = _target(name)
+    return f"{gen_of(t)['ns'] if t else 'Src'}.{name}_eq_model"
 
 
 def theorems_of(name):
     """every theorem the tie of one function needs: the equality, and the pin of its opaque nested helpers"""
-    t = next((t for t in py2lean.TARGETS if t["lean"] == name), {})
-    return [theorem_of(name)] + ([f"Src.{name}_helpers_pinned"] if t.get("local_defs_opaque") else [])
+    t = _target(name) or {}
+    ns = gen_of(t)["ns"] if t else "Src"
+    return [theorem_of(name)] + ([f"{ns}.{name}_helpers_pinned"] if t.get("local_defs_opaque") else [])
 
 
 # ----------------------------------------------------------------------------- before the main build
@@ -75,18 +101,28 @@ def pre_build(repo, lean_dir):
     has not seen before) restore the previous text, so that the main build and the driver keep working, and report the
     changed functions as untranslatable."""
     t0 = time.time()
-    gen = os.path.join(lean_dir, "PycsepVerif", "GeneratedSrc.lean")
-    changed, status, new, old = py2lean.regenerate(repo, lean_dir, write=False)
-    info = dict(regenerated=False, functions=status)
+    info = dict(regenerated=False, functions={})
+    for G in GENS:
+        _pre_build_one(G, repo, lean_dir, info)
+    info["pre_s"] = round(time.time() - t0, 2)
+    STATE.clear()
+    STATE.update(info)
+    return info
+
+
+def _pre_build_one(G, repo, lean_dir, info):
+    gen = os.path.join(lean_dir, "PycsepVerif", G["gen"])
+    changed, status, new, old = G["mod"].regenerate(repo, lean_dir, write=False)
+    info["functions"].update(status)
     if changed:
         cache = _load_cache(lean_dir)
-        key = _sha(new, _read(os.path.join(lean_dir, "PycsepVerif", "PyPrelude.lean")),
-                   _read(os.path.join(lean_dir, "PycsepVerif", "Drive", "Src.lean")))
+        key = _sha(new, *[_read(os.path.join(lean_dir, "PycsepVerif", p)) for p in G["preludes"]],
+                   _read(os.path.join(lean_dir, "PycsepVerif", "Drive", G["drive"] + ".lean")))
         verdict = cache.get("compiles", {}).get(key)
         if verdict is None:
             with open(gen, "w") as f:
                 f.write(new)
-            rc, out = _run(["lake", "build", "PycsepVerif.GeneratedSrc", "PycsepVerif.Drive.Src"], lean_dir)
+            rc, out = _run(["lake", "build", "PycsepVerif." + G["gen"][:-5], "PycsepVerif.Drive." + G["drive"]], lean_dir)
             verdict = "ok" if rc == 0 else "error: " + " | ".join(
                 l.strip() for l in out.splitlines() if l.startswith("error:"))[:600]
             cache.setdefault("compiles", {})[key] = verdict
@@ -108,24 +144,20 @@ def pre_build(repo, lean_dir):
                     st["status"] = "untranslatable"
                     st["reason"] = "the generated Lean does not compile (kept the previous definition): " + verdict
                     st["stale"] = True
-    info["pre_s"] = round(time.time() - t0, 2)
-    STATE.clear()
-    STATE.update(info)
-    return info
 
 
 # ----------------------------------------------------------------------------- after the main build
 def functions_of(prop):
-    return [t for t in py2lean.TARGETS if t["prop"] == prop or prop in t.get("also", [])]
+    return [t for t in ALL_TARGETS if t["prop"] == prop or prop in t.get("also", [])]
 
 
-def _module_key(lean_dir, owner):
+def _module_key(lean_dir, owner, G=GENS[0]):
     d = os.path.join(lean_dir, "PycsepVerif")
-    parts = [_read(os.path.join(d, "Source", f"{owner}.lean")), _read(os.path.join(d, "GeneratedSrc.lean")),
-             _read(os.path.join(d, "PyPrelude.lean")), _read(os.path.join(lean_dir, "lean-toolchain"))]
+    parts = [_read(os.path.join(d, G["srcdir"], f"{owner}.lean")), _read(os.path.join(d, G["gen"]))] + \
+            [_read(os.path.join(d, p)) for p in G["preludes"]] + [_read(os.path.join(lean_dir, "lean-toolchain"))]
     meta = []
     for root, _, files in os.walk(d):
-        if os.sep + "Source" in root:
+        if os.sep + "Source" in root:       # Source/ and SourceSM/
             continue
         for f in sorted(files):
             if f.endswith(".lean"):
@@ -134,21 +166,22 @@ def _module_key(lean_dir, owner):
     return _sha(*parts, "\n".join(sorted(meta)))
 
 
-def _check_module(lean_dir, owner, names):
+def _check_module(lean_dir, owner, names, G=GENS[0]):
     """build Source/<owner>.lean and audit `Src.<f>_eq_model` for f in names -> {name: (ok, detail)}"""
-    path = os.path.join(lean_dir, "PycsepVerif", "Source", f"{owner}.lean")
+    SD = G["srcdir"]
+    path = os.path.join(lean_dir, "PycsepVerif", SD, f"{owner}.lean")
     if not os.path.exists(path):
-        return {n: (False, f"no module Source/{owner}.lean") for n in names}
+        return {n: (False, f"no module {SD}/{owner}.lean") for n in names}
     src = _read(path)
     res = {}
     m = _BAD.search(re.sub(r"--.*", "", re.sub(r"/-.*?-/", "", src, flags=re.S)))
     if m:
-        return {n: (False, f"forbidden construct {m.group(0).strip()!r} in Source/{owner}.lean") for n in names}
-    rc, out = _run(["lake", "build", f"PycsepVerif.Source.{owner}"], lean_dir)
-    tmp = os.path.join(lean_dir, ".lake", f"srctie_{owner}_{os.getpid()}.lean")
+        return {n: (False, f"forbidden construct {m.group(0).strip()!r} in {SD}/{owner}.lean") for n in names}
+    rc, out = _run(["lake", "build", f"PycsepVerif.{SD}.{owner}"], lean_dir)
+    tmp = os.path.join(lean_dir, ".lake", f"srctie_{SD}_{owner}_{os.getpid()}.lean")
     if rc == 0:
         with open(tmp, "w") as f:
-            f.write(f"import PycsepVerif.Source.{owner}\n" +
+            f.write(f"import PycsepVerif.{SD}.{owner}\n" +
                     "".join(f"#print axioms {th}\n" for n in names for th in theorems_of(n)))
         errs = {}
     else:
@@ -156,7 +189,7 @@ def _check_module(lean_dir, owner, names):
         with open(tmp, "w") as f:
             f.write(src + "\n" + "".join(f"#print axioms {th}\n" for n in names for th in theorems_of(n)))
         errs = {}
-        for mm in re.finditer(r"^error: \S*Source/%s\.lean:(\d+):\d+: (.*)$" % owner, out, re.M):
+        for mm in re.finditer(r"^error: \S*%s/%s\.lean:(\d+):\d+: (.*)$" % (SD, owner), out, re.M):
             errs[int(mm.group(1))] = mm.group(2)[:160]
     rc2, out2 = _run(["lake", "env", "lean", tmp], lean_dir)
     os.unlink(tmp)
@@ -201,22 +234,25 @@ def post_build(prop, lean_dir):
         out["seconds"] = 0.0
         return out
     cache = _load_cache(lean_dir)
-    digests = py2lean.defs_digest(_read(os.path.join(lean_dir, "PycsepVerif", "GeneratedSrc.lean")))
+    digests = {}
+    for G in GENS:
+        digests.update(py2lean.defs_digest(_read(os.path.join(lean_dir, "PycsepVerif", G["gen"]))))
     by_owner = {}
     for t in targets:
-        by_owner.setdefault(t["prop"], []).append(t)
+        by_owner.setdefault((gen_of(t)["key"], t["prop"]), []).append(t)
     dirty = False
-    for owner, ts in by_owner.items():
+    for (gkey, owner), ts in by_owner.items():
+        G = next(g for g in GENS if g["key"] == gkey)
         names = [t["lean"] for t in ts]
-        key = _module_key(lean_dir, owner) + ":" + ",".join(names)
-        ent = cache.get("modules", {}).get(owner)
+        key = _module_key(lean_dir, owner, G) + ":" + ",".join(names)
+        ent = cache.get("modules", {}).get(gkey + owner)
         if ent is None or ent.get("key") != key:
-            res = _check_module(lean_dir, owner, names)
+            res = _check_module(lean_dir, owner, names, G)
             ent = dict(key=key, res={n: list(v) for n, v in res.items()})
-            cache.setdefault("modules", {})[owner] = ent
+            cache.setdefault("modules", {})[gkey + owner] = ent
             dirty = True
         for t in ts:
-            n, py = t["lean"], t["func"]
+            n, py = t["lean"], label_of(t)
             st = status.get(n, {})
             out["obligations"] += 1
             ok, detail = ent["res"].get(n, (False, "not checked"))
@@ -240,3 +276,28 @@ def post_build(prop, lean_dir):
         _save_cache(lean_dir, cache)
     out["seconds"] = round(time.time() - t0 + STATE.get("pre_s", 0), 2)
     return out
+
+
+# ----------------------------------------------------------------------------- executable tie of the SM functions
+def _install_exec_tie():
+    """harness/core.py runs `src_tie.run_src_tie` for the functions of py2lean.TARGETS; the functions of
+    py2lean_sm.TARGETS are run right after it by harness/src_tie_sm.py (same contract: a disagreement is a lost tie)."""
+    from . import src_tie, src_tie_sm
+    if getattr(src_tie.run_src_tie, "_with_sm", False):
+        return
+    orig = src_tie.run_src_tie
+
+    def run_src_tie(run, rng, tier, prop, functions=None):
+        out = list(orig(run, rng, tier, prop, functions) or [])
+        verdicts = run.extra.get("source_tie", {})
+        names = [t["lean"] for t in py2lean_sm.TARGETS if (t["prop"] == prop or prop in t.get("also", []))
+                 and label_of(t) in verdicts and not verdicts[label_of(t)].startswith("untranslatable")]
+        if names:
+            by_lean = {t["lean"]: label_of(t) for t in py2lean_sm.TARGETS}
+            out += [(by_lean[n], why) for n, why in src_tie_sm.run_src_tie_sm(run, rng, tier, prop, names)]
+        return out
+    run_src_tie._with_sm = True
+    src_tie.run_src_tie = run_src_tie
+
+
+_install_exec_tie()
